@@ -38,6 +38,7 @@ import (
 	"github.com/projectcalico/calico/felix/nftables"
 	"github.com/projectcalico/calico/felix/proto"
 	"github.com/projectcalico/calico/felix/rules"
+	"github.com/projectcalico/calico/felix/rules/rulesdefs"
 	"github.com/projectcalico/calico/lib/logrusr"
 	"github.com/projectcalico/calico/libcalico-go/lib/set"
 )
@@ -220,6 +221,152 @@ func ruleSetName(ver int) string {
 	}()
 	ruleSetNames[ver] = name
 	return name
+}
+
+// ---------------------------------------------------------------- the real nftables Table: programmed rule + flowtable object
+
+// device universe; the id of a name is its rank in string order, so that N order in the model = Go string order
+var devNames = []string{"cali1234", "cali9", "eth0", "eth1", "tunl0", "vxlan.calico"}
+
+// no process is spawned for feature detection: the nftables renderer does not depend on iptables features
+var sharedDetector = &environment.FakeFeatureDetector{}
+
+type tableObs struct {
+	ruleCoq   string   // the rule found in cali-FORWARD of the fake kernel, parsed ("None" if absent)
+	ruleText  string
+	declared  bool     // the flowtable the programmed rule names exists in the fake kernel
+	devs      []int    // its devices, in the order the kernel object lists them
+	ovl, wl, ext, existing []int
+}
+
+func pickDevs(r *rng) []int {
+	var out []int
+	n := r.intn(4)
+	for i := 0; i < n; i++ {
+		out = append(out, r.intn(len(devNames)))
+	}
+	return out
+}
+func devStrings(ids []int) []string {
+	out := make([]string, 0, len(ids))
+	for _, i := range ids {
+		out = append(out, devNames[i])
+	}
+	return out
+}
+func idsCoq(ids []int) string {
+	p := make([]string, len(ids))
+	for i, x := range ids {
+		p[i] = strconv.Itoa(x)
+	}
+	return "[" + strings.Join(p, "; ") + "]"
+}
+
+// tableRoundTrip drives the REAL nftables.NftablesTable on the SAME fake kernel the IP set layer wrote to: the real rendered
+// offload rule goes into cali-FORWARD (jumped to from filter-FORWARD), the three device setters are called, Apply runs, and
+// the rule and the flowtable object are read back from the fake kernel.
+func tableRoundTrip(r *rng, ver int, fake *knftables.Fake, managed string) (obs tableObs, err error) {
+	defer func() {
+		if x := recover(); x != nil {
+			err = fmt.Errorf("nftables table round trip panicked: %v", x)
+		}
+	}()
+	obs.ruleCoq = "None"
+	obs.ovl, obs.wl, obs.ext = pickDevs(r), pickDevs(r), pickDevs(r)
+	switch r.intn(3) {
+	case 0: // everything exists
+		for i := range devNames {
+			obs.existing = append(obs.existing, i)
+		}
+	default:
+		for i := range devNames {
+			if r.coin(2, 3) {
+				obs.existing = append(obs.existing, i)
+			}
+		}
+	}
+	existing := devStrings(obs.existing)
+	rr := rules.NewRenderer(rules.Config{
+		IPSetConfigV4: ipsets.NewIPVersionConfig(ipsets.IPFamilyV4, rules.IPSetNamePrefix, nil, nil),
+		IPSetConfigV6: ipsets.NewIPVersionConfig(ipsets.IPFamilyV6, rules.IPSetNamePrefix, nil, nil),
+		MarkAccept:    0x8, MarkPass: 0x10, MarkScratch0: 0x20, MarkScratch1: 0x40, MarkDrop: 0x80,
+		MarkEndpoint: 0xff00, MarkNonCaliEndpoint: 0x0100,
+		FilterDenyAction: "DROP", VXLANPort: 4789, VXLANVNI: 4096,
+		WorkloadIfacePrefixes:    []string{"cali"},
+		NFTablesFlowTableOffload: true,
+	}, true)
+	var offload []generictables.Rule
+	for _, ch := range rr.StaticFilterTableChains(uint8(ver)) {
+		if ch.Name != rules.ChainFilterForward {
+			continue
+		}
+		for i := range ch.Rules {
+			if _, ok := ch.Rules[i].Action.(nftables.FlowOffloadAction); ok {
+				offload = append(offload, ch.Rules[i])
+			}
+		}
+	}
+	table := nftables.NewTable("calico", uint8(ver), rulesdefs.RuleHashPrefix, sharedDetector,
+		nftables.TableOptions{
+			NewDataplane: func(fam knftables.Family, name string, options ...knftables.Option) (knftables.Interface, error) {
+				return fake, nil
+			},
+			LookPathOverride:       func(p string) (string, error) { return p, nil },
+			OpRecorder:             logrusr.NewSummarizer("verif-c41"),
+			ListInterfacesOverride: func() ([]string, error) { return existing, nil },
+		}, true)
+	table.UpdateChains([]*generictables.Chain{{Name: rules.ChainFilterForward, Rules: offload}})
+	table.InsertOrAppendRules("filter-FORWARD", []generictables.Rule{{Match: nftables.Match(), Action: &nftables.JumpAction{Target: rules.ChainFilterForward}}})
+	table.SetOverlayDevices(devStrings(obs.ovl))
+	table.SetWorkloadInterfaces(devStrings(obs.wl))
+	table.SetExternalDevices(devStrings(obs.ext))
+	table.Apply()
+
+	// read back
+	krules, lerr := fake.ListRules(context.Background(), rules.ChainFilterForward)
+	if lerr != nil {
+		return obs, fmt.Errorf("cannot list %s in the fake kernel: %v", rules.ChainFilterForward, lerr)
+	}
+	ftName := ""
+	names := map[string]int{}
+	setID := func(n string) int {
+		if n == managed {
+			return 1
+		}
+		if id, ok := names[n]; ok {
+			return id
+		}
+		names[n] = 2 + len(names)
+		return names[n]
+	}
+	for _, kr := range krules {
+		if !hasFlowToken(kr.Rule) {
+			continue
+		}
+		c, perr := parseOffloadRule(kr.Rule, ver, setID)
+		if perr != nil {
+			return obs, perr
+		}
+		obs.ruleCoq, obs.ruleText = "(Some "+c+")", kr.Rule
+		t := strings.Fields(kr.Rule)
+		ftName = strings.TrimPrefix(t[len(t)-1], "@")
+	}
+	if ft, ok := fake.Table.Flowtables[ftName]; ok && ftName != "" {
+		obs.declared = true
+		for _, d := range ft.Devices {
+			id := -1
+			for i, n := range devNames {
+				if n == d {
+					id = i
+				}
+			}
+			if id < 0 {
+				return obs, fmt.Errorf("flowtable device %q is not in the universe", d)
+			}
+			obs.devs = append(obs.devs, id)
+		}
+	}
+	return obs, nil
 }
 
 // ---------------------------------------------------------------- universes
@@ -1079,6 +1226,10 @@ func main() {
 		if err != nil {
 			fatal("%v", err)
 		}
+		tobs, terr := tableRoundTrip(r, ver, rec.real.fake, managed)
+		if terr != nil {
+			fatal("%v", terr)
+		}
 		var rcoq, rtext []string
 		for _, x := range rrs {
 			rcoq = append(rcoq, fmt.Sprintf("{| l_forward := %s; l_index := %d%%nat; l_rule := %s |}", bcoq(x.forward), x.index, x.coq))
@@ -1091,8 +1242,14 @@ func main() {
 		for k, o := range ops {
 			opc[k] = o.coq()
 		}
-		coq := fmt.Sprintf("{| c_ver := V%d; c_ops := [%s]; c_outs := [%s]; c_nft := %s; c_offload := %s; c_rules := [%s]; c_limits := [%s]; c_prog := [%s] |}",
-			ver, strings.Join(opc, "; "), strings.Join(outs, "; "), bcoq(nft), bcoq(offload), strings.Join(rcoq, "; "), strings.Join(limits, "; "), strings.Join(progs, "; "))
+		coq := fmt.Sprintf("{| c_ver := V%d; c_ops := [%s]; c_outs := [%s]; c_nft := %s; c_offload := %s; c_rules := [%s]; c_limits := [%s]; c_prog := [%s]; "+
+			"c_krule := %s; c_ft_declared := %s; c_ft_devs := %s; c_dev_in := (%s, %s, %s, %s) |}",
+			ver, strings.Join(opc, "; "), strings.Join(outs, "; "), bcoq(nft), bcoq(offload), strings.Join(rcoq, "; "), strings.Join(limits, "; "), strings.Join(progs, "; "),
+			tobs.ruleCoq, bcoq(tobs.declared), idsCoq(tobs.devs), idsCoq(tobs.ovl), idsCoq(tobs.wl), idsCoq(tobs.ext), idsCoq(tobs.existing))
+		tags = append(tags, fmt.Sprintf("ft-devices:%d", len(tobs.devs)))
+		if len(tobs.devs) < len(tobs.ovl)+len(tobs.wl)+len(tobs.ext) {
+			tags = append(tags, "ft-devices-merged-or-pruned")
+		}
 		if rec.real.broken != "" {
 			tags = append(tags, "ipset-layer-broken")
 			stats["ipset-layer-broken"]++
@@ -1121,7 +1278,8 @@ func main() {
 		stats["cases"]++
 		key := fmt.Sprintf("v%d|%s|%v|%v", ver, strings.Join(opc, ";"), nft, offload)
 		l := line{Coq: coq, NT: nt, Key: key, Tags: utags,
-			Sample: map[string]any{"ip_version": ver, "ops": sampleOps, "ipset_calls_per_flush": outs, "programmed_set_per_flush": progs, "rule_set_name": ruleSetName(ver), "offload_rules": rtext}}
+			Sample: map[string]any{"ip_version": ver, "ops": sampleOps, "ipset_calls_per_flush": outs, "programmed_set_per_flush": progs, "rule_set_name": ruleSetName(ver), "offload_rules": rtext,
+				"kernel_rule": tobs.ruleText, "flowtable_declared": tobs.declared, "flowtable_devices": devStrings(tobs.devs)}}
 		if err := enc.Encode(l); err != nil {
 			fatal("%v", err)
 		}
